@@ -205,6 +205,10 @@ func TestC04NoSecretOnDisk(t *testing.T) {
 						// DESIGN C04 L: the script crypto key is never loaded on this tree; the bytes on disk are still not the raw script
 						c.Class("observation:script-sealed-under-zero-key")
 						g.Note("observation (not raised): a secret imported script is sealed under the all-zero crypto key (cryptoKeyScript is never derived on this tree); the file holds ciphertext, not the raw script")
+					case strings.HasPrefix(f.Adversary, "public-"):
+						// sealed under a key the public passphrase gives access to: for a
+						// secret script that is no protection, exactly as for a private key
+						m.Violation("secret script encrypted with a key of the public passphrase (%s): %s", where, f)
 					default:
 						c.Class("observation:secret-script-opened-by-" + strings.SplitN(f.Adversary, " ", 2)[0])
 						g.Note("observation (not raised): " + f.String())
